@@ -15,6 +15,7 @@ CONFIGS = [
     Config(usage=False, blur=3600, allow_list=False, signal_error="go away"),
     Config(usage=True, blur=61, allow_list=True),
     Config(usage=True, blur=0, allow_list=True),        # --blur-usage=0 is "no blurring", not an interval
+    Config(usage=True, blur=None, allow_list=True, log_fd=True),
 ]
 
 
